@@ -57,6 +57,7 @@ class Unit:
         self.out = Out()
         self.clauses = 0
         self.trusted = []
+        self.body_prelude = []
 
     def rf(self, rel):
         if rel not in self.files:
@@ -321,6 +322,9 @@ class Unit:
                     self.clauses += 1
         if not has_body:
             self.out.add(';', {'k': 'lit'})
+        elif trusted:
+            # contract-only: the body is not part of this unit (verified elsewhere or out of reach)
+            self.out.add('{ unimplemented!() }', {'k': 'lit'})
         else:
             bm = mask(body)
             inserts = []   # (pos, text, origin)
@@ -356,6 +360,8 @@ class Unit:
             n_loop_secs = sum(1 for k in sections if isinstance(k, tuple) and k[0] == 'loop')
             inserts.sort(key=lambda x: x[0])
             self.out.add('{', {'k': 'lit'})
+            for bp in self.body_prelude:
+                self.out.add(bp, {'k': 'lit'})
             cur = 0
             cur_line = body_off_line
             for pos, lines, origin in inserts:
@@ -376,8 +382,20 @@ class Unit:
                            'trusted': trusted, 'line': it.line})
 
     # ---------------------------------------------------------------------------------------
+    def expand_includes(self, path, depth=0):
+        out = []
+        for ln in open(path).read().split('\n'):
+            t = ln.strip()
+            if t.startswith('//@include-vu '):
+                if depth > 5:
+                    raise WeaveError('include-vu nesting too deep')
+                out.extend(self.expand_includes(os.path.join(self.verif, t[len('//@include-vu '):].strip()), depth + 1))
+            else:
+                out.append(ln)
+        return out
+
     def build(self, template_path):
-        src = open(template_path).read().split('\n')
+        src = self.expand_includes(template_path)
         i = 0
         canary_id = 0
         while i < len(src):
@@ -401,6 +419,10 @@ class Unit:
                 self.rewrites = [r for r in self.rewrites if r[0] != arg]
             elif cmd in ('unit', 'serves', 'note'):
                 pass
+            elif cmd == 'body-prelude':
+                self.body_prelude.append(arg)
+            elif cmd == 'body-prelude-off':
+                self.body_prelude = []
             elif cmd == 'trusted':
                 self.trusted.append(arg)
             elif cmd == 'item':
